@@ -449,6 +449,22 @@ func (s *UtxoStore) removeRelevantCredit(tx mwdb.DBTransaction,
 	return heightOfTx, spenders, finish, nil
 }
 
+// hasCreditOrDebitOfTx reports whether a credit or a debit keyed by the transaction record key
+// (tx hash, block height, block hash) is left. GetByPrefix sees the deletions of the running
+// transaction (an iterator would not).
+func (s *UtxoStore) hasCreditOrDebitOfTx(tx mwdb.DBTransaction, txRecordKey []byte) (bool, error) {
+	for _, ns := range []mwdb.Bucket{tx.FetchBucket(s.bucketMeta.nsCredits), tx.FetchBucket(s.bucketMeta.nsDebits)} {
+		entries, err := ns.GetByPrefix(txRecordKey)
+		if err != nil {
+			return false, err
+		}
+		if len(entries) > 0 {
+			return true, nil
+		}
+	}
+	return false, nil
+}
+
 func (s *UtxoStore) removeRelevantUnminedCredit(tx mwdb.DBTransaction,
 	scriptHashSet map[string]struct{}) (map[wire.Hash]struct{}, error) {
 	if len(scriptHashSet) == 0 {
